@@ -319,7 +319,7 @@ impl WorldA {
         let start_absent = cfg.get("start_absent");
         for i in 0..ncl {
             if start_absent & (1 << i) == 0 {
-                w.connect(i, false);
+                w.connect(i, cfg.get("localcl") == 1);
             }
         }
         // drain initial connect events into the event monitor silently
@@ -544,6 +544,13 @@ pub fn gen_cfg(family: &str, rng: &mut Rng) -> Cfg {
     if rng.chance(1, 6) {
         let t = *rng.pick(&[60u64, 16_380, (1 << 30) - 40, (1u64 << 62) - 100_000_000]);
         cfg.set("tele_mid", t);
+    }
+    if matches!(fam, Fam::Budget) && same_lists && rng.chance(1, 4) {
+        // the clients are the server's own in-memory local clients (new_local_client), still joined to it by the simulated
+        // link: the configured budgets and channels hold for them as for any other client
+        cfg.set("localcl", 1);
+        cfg.set("tele_seq", 0);
+        cfg.set("tele_mid", 0);
     }
     match fam {
         Fam::Hostile => {
